@@ -235,30 +235,18 @@ Theorem part_witness : forall ballots parts, is_part ballots = Some parts -> par
 Proof. exact Proofs.Approval.part_witness. Qed.
 Print Assumptions part_witness.
 (* TwoPart = the text of the property: any two approval sets equal or disjoint, AT MOST two distinct ones
-   (none when there is no ballot), two distinct ones cover all alternatives.
-   FULL CLAUSE (false for the current code, see two_part_no_ballots_refuted):
-     forall alts ballots, (exists parts, is_2_part alts ballots = Some parts) <-> TwoPart alts ballots.
-   Proved: soundness for every profile, completeness for every profile with at least one ballot. *)
-Theorem two_part_sound : forall alts ballots parts,
-  is_2_part alts ballots = Some parts -> TwoPart alts ballots.
-Proof. exact Proofs.Approval.two_part_sound. Qed.
-Print Assumptions two_part_sound.
-Theorem two_part_correct : forall alts ballots, ballots <> [] ->
-  ((exists parts, is_2_part alts ballots = Some parts) <-> TwoPart alts ballots).
+   (none when there is no ballot), two distinct ones cover all alternatives.  Every profile. *)
+Theorem two_part_correct : forall alts ballots,
+  (exists parts, is_2_part alts ballots = Some parts) <-> TwoPart alts ballots.
 Proof. exact Proofs.Approval.two_part_correct. Qed.
 Print Assumptions two_part_correct.
 Theorem two_part_witness : forall alts ballots parts,
   is_2_part alts ballots = Some parts -> part2_check alts ballots parts = true.
 Proof. exact Proofs.Approval.two_part_witness. Qed.
 Print Assumptions two_part_witness.
-(* is_2_part answers False on the profile without ballots, although it has zero (<= 2) distinct approval sets *)
-Theorem two_part_no_ballots : forall alts, is_2_part alts [] = None.
+Theorem two_part_no_ballots : forall alts, is_2_part alts [] = Some [].
 Proof. exact Proofs.Approval.two_part_no_ballots. Qed.
 Print Assumptions two_part_no_ballots.
-Theorem two_part_no_ballots_refuted :
-  exists alts ballots, TwoPart alts ballots /\ is_2_part alts ballots = None.
-Proof. exact Proofs.Approval.two_part_no_ballots_refuted. Qed.
-Print Assumptions two_part_no_ballots_refuted.
 
 (* ---- the six recognisers built on the solver (mirrored, solver as a parameter): relative to a solver that
    answers like the verified reference and returns column orders accepted by the verified checker — which is
